@@ -118,10 +118,12 @@ def namedObjs (str : Obj → Key) (objs : List Obj) (names : Dict) : Dict :=
   objs.foldl (fun d o => Dict.set d (nameOf str names o) o) []
 
 /-- Python's `str` on the objects of the driver's universe: model object 0 stands for `None`, object
-`k ≠ 0` for the Python integer `1000 * k` (the harness hands every such object over as a fresh `int`
-outside CPython's small-integer cache, so that equal objects are not identical).
-The theorems only assume that `str` is injective on objects; this instance is what the driver uses. -/
-def pyStr (o : Obj) : Key := if o = 0 then "None" else Int.repr (o * 1000)
+`k > 0` for the Python integer `1000 * k` (the harness hands every such object over as a fresh `int`
+outside CPython's small-integer cache, so that equal objects are not identical), and object `-k` for the
+Python *string* `str(1000 * k)` — a different object with the same `str`, so that this `str` is NOT
+injective: `pyStr 7 = pyStr (-7)`.  The consistency theorems assume an injective `str` (`hstr`);
+`C18_str_collision_refuted` shows that the assumption is needed, and the driver probes the library there. -/
+def pyStr (o : Obj) : Key := if o = 0 then "None" else Int.repr (o.natAbs * 1000)
 
 def payloadOld (s : St) : Payload :=       -- `dict(names) or list(_objects)`
   if s.names ≠ [] then .dct s.names else .lst s.objs
